@@ -60,7 +60,10 @@ def named_case(item):
     A = bt.algos
     kind, variant, lag = item
     data = R.table("d12", "exact", late=False)
-    tab = user_table(kind, variant, data)
+    if variant == "intraday":
+        # bars (and the user's rows) carry a time of day
+        data.index = data.index + pd.Timedelta(hours=16)
+    tab = user_table(kind, "aligned" if variant == "intraday" else variant, data)
     if kind == "stat":
         peek = Peek("selected")
         stack = [A.SetStat("tab", lag=pd.DateOffset(days=lag)), A.SelectN(2, filter_selected=False), peek]
